@@ -291,6 +291,8 @@ fn run(ch: Chooser, ctx: &RunCtx, mut opts: BasicOpts, n_acts: u32) -> RunOut {
     let or = MigOracle::new(mig, irtt);
     let mut sc = MigScen { b, acts, pending: or.pending.clone() };
     sc.b.oracles.push(Box::new(or));
+    // "limits what it sends there until validation succeeds": the per-address byte ledger of C07
+    sc.b.oracles.push(Box::new(super::c07::AmpOracle::new(20 * MS)));
     w.run(&mut sc);
     super::c02::liveness_end_checks(&mut w, &sc.b);
     let mut o = RunOut::from_world(&mut w);
